@@ -581,6 +581,54 @@ def widen_some_leaf(r, t):
     return None
 
 
+def _cv_nodes(cv, acc):
+    if isinstance(cv, dict):
+        if "node" in cv:
+            acc.append(cv["node"])
+        else:
+            for v in cv.values():
+                _cv_nodes(v, acc)
+    elif isinstance(cv, list):
+        for v in cv:
+            _cv_nodes(v, acc)
+    return acc
+
+
+def _ref_flip(w, r, c, name, tbl, tables):
+    """Decode time relative to attach / detach: this table is about to be decoded lazily; if a
+    sibling table that is still undecoded names one of the same nodes, queue 'that node leaves
+    (or re-joins) its parent' and the read of the sibling. Model only."""
+    if tbl.get("raw") is None or tbl["state"] != "untouched" or tbl.get("cv") is None or r.random() > 0.4:
+        return None
+    mine = set(_cv_nodes(tbl["cv"], []))
+    if not mine:
+        return None
+    sibs = []
+    for n2 in sorted(tables):
+        t2 = tables[n2]
+        if n2 != name and t2.get("raw") is not None and t2["state"] == "untouched" and t2.get("cv") is not None:
+            common = sorted(mine & set(_cv_nodes(t2["cv"], [])))
+            common = [l for l in common if l in w.m.nodes and w.m.nodes[l].kind != "ir"]
+            if common:
+                sibs.append((n2, common))
+    if not sibs:
+        return None
+    n2, common = sibs[r.randrange(len(sibs))]
+    x = common[r.randrange(len(common))]
+    node = w.m.nodes[x]
+    if node.parent is not None:
+        step = {"op": "setparent", "child": x, "parent": None}
+    else:
+        from .world import PARENT_OF
+
+        ps = w.m.by_kind(PARENT_OF[node.kind][0]) if node.kind in PARENT_OF else []
+        if not ps:
+            return None
+        step = {"op": "setparent", "child": x, "parent": ps[r.randrange(len(ps))]}
+    w.counters["probe:gen_ref_flip"] += 1
+    return [step, {"op": "aux_read", "c": c, "name": n2}]
+
+
 def gen_aux(w, r, allow_unknown=False):
     m = w.m
     cs = m.by_kind("ir", "mod")
@@ -620,6 +668,9 @@ def gen_aux(w, r, allow_unknown=False):
     name = sorted(tables)[r.randrange(len(tables))]
     tbl = tables[name]
     if x < 0.55:
+        flip = _ref_flip(w, r, c, name, tbl, tables)
+        if flip:
+            w.queue.extend(flip)
         return {"op": "aux_read", "c": c, "name": name}
     if x < 0.7:
         return {"op": "aux_mutate" if r.random() < 0.6 else "aux_mutate_ref", "c": c, "name": name, "seed": r.randrange(4)}
